@@ -42,6 +42,11 @@ def clock_period_seconds(clk):
     return Fraction(clk[2]) * TIME_UNITS[clk[1]]
 
 
+def duration_ticks_exact(dur, clk):
+    """exact rational number of clock periods in the duration"""
+    return duration_seconds(dur) / clock_period_seconds(clk)
+
+
 def duration_ticks(dur, clk):
     """exact number of clock periods in the duration, or None when the clock period does not divide it
     (then the documented behaviour is a rejection: count_periods' allowed_delta of 1e-9)."""
